@@ -29,6 +29,13 @@ func main() {
 		Roots: map[*ssa.Function]map[int]pta.RootSpec{step: r, walk: r}})
 	a.Run()
 	fn := p.Func(os.Args[1], os.Args[2], os.Args[3])
+	if len(os.Args) > 4 {
+		for _, an := range fn.AnonFuncs {
+			if an.Name() == os.Args[4] {
+				fn = an
+			}
+		}
+	}
 	fn.WriteTo(os.Stdout)
 	dumpFacts(fn)
 	fmt.Println("pruned", a.PrunedPhis)
